@@ -84,6 +84,9 @@ class Snap:
     if isinstance(e, m.Text):
       return ("Text", e.get_text(), e)
     if isinstance(e, m.Br):
+      # a br is an anonymous span around a line separator: tts:display (specified or set by animation) removes it like any span
+      if resolved(doc, e, iv, SP.Display, t) is sp.DisplayType.none:
+        return None
       return ("Br", e.get_id(), [], e)
     if resolved(doc, e, iv, SP.Display, t) is sp.DisplayType.none:
       return None
